@@ -5,6 +5,7 @@
 // the family determines every coefficient (index and sign) of the Laplace expansion.
 // Thorough tier in addition: all 2^16 dense matrices over {0,1}.
 #include "C14_matrix.hpp"
+#include "C14_shapes.hpp"
 
 namespace c14
 {
@@ -19,6 +20,20 @@ std::vector<rmat<4, 4>> fam4_unary()
 
 void register_m4()
 {
+  vrt::shard("shapes/product/inner4", [] {
+    // all shape triples RxK * KxC with inner dimension 4 (see C14_shapes.hpp)
+    static_for<4>([](auto ri) {
+      constexpr sz r = decltype(ri)::value + 1;
+      shapes::product_shape<r, 4, 1>();
+      shapes::product_shape<r, 4, 2>();
+      shapes::product_shape<r, 4, 3>();
+      shapes::product_shape<r, 4, 4>();
+    });
+  });
+  vrt::shard("shapes/assoc/1x2.2x3.3x4", [] {
+    // associativity through four different extents; no product has more rows than columns on the left
+    rect_assoc<1, 2, 3, 4>(make_ops(all_over<1, 2>({-1, 0, 2})), make_ops(sparse_over<2, 3>(2, {-1, 2})), make_ops(sparse_over<3, 4>(1, {-1, 2})));
+  });
   for (unsigned p = 0; p < 8; ++p)
     vrt::shard("m4/unary/" + std::to_string(p), [p] {
       auto const all = fam4_unary();
